@@ -159,20 +159,30 @@ Proof.
 Qed.
 
 (* full statement for double literals and its status on the model of the code:
-   refuted with 15 digits (0.1+0.2), and even with 17 digits for subnormal
-   values (strtod's ERANGE is treated as "not a number" by _GD_TokToNum) and
-   for -0.0 ("-0" is read through strtoll) *)
+   refuted with 15 digits (0.1+0.2) *)
 Definition double_literal_roundtrip_statement := C07.Witness.double_literal_roundtrip_statement.
 
 Theorem double_literal_roundtrip_refuted_15 : ~ double_literal_roundtrip_statement 15.
 Proof. exact dbl_stmt_refuted_15. Qed.
 
-Theorem double_literal_roundtrip_refuted_subnormal :
-  exists b, dbl_is_subnormal b = true /\ ~ dlit_ok (ctx 10 17) b.
-Proof. exact dbl_stmt_refuted_17_subnormal. Qed.
+(* subnormal values and -0.0: both variants of the two literal rules of
+   _GD_TokToNum (tree independent), and the reader of the current source: the
+   literal is read back iff the rule is present (Gen/Formats.v) *)
+Theorem subnormal_literal_reader_variants :
+  stableb_gen false false 17 d_sub = false /\ stableb_gen false true 17 d_sub = false /\
+  stableb_gen true false 17 d_sub = true /\ stableb_gen true true 17 d_sub = true.
+Proof. exact subnormal_variants. Qed.
 
-Theorem double_literal_roundtrip_refuted_negzero : ~ dlit_ok (ctx 10 17) d_negzero.
-Proof. exact dbl_stmt_refuted_17_negzero. Qed.
+Theorem negzero_literal_reader_variants :
+  stableb_gen false false 17 d_negzero = false /\ stableb_gen true false 17 d_negzero = false /\
+  stableb_gen false true 17 d_negzero = true /\ stableb_gen true true 17 d_negzero = true.
+Proof. exact negzero_variants. Qed.
+
+Theorem subnormal_literal_current : dlit_okb (ctx 10 17) d_sub = tok_accepts_underflow.
+Proof. exact subnormal_current. Qed.
+
+Theorem negzero_literal_current : dlit_okb (ctx 10 17) d_negzero = tok_zero_via_strtod.
+Proof. exact negzero_current. Qed.
 
 Theorem const_float64_15_digits_lost :
   parse_line (rctx_of (ctx 10 15)) (print_entry (ctx 10 15) (EConst (bytes_of_string "c") T_F64 (VD d_03)))
